@@ -266,9 +266,6 @@ func c01step(op int) {
 			_ = t.String()
 		}
 	case 4: // Clone
-		if !set {
-			return
-		}
 		var c Tree[int]
 		pan := vPanics(func() { c = t.Clone() })
 		vAssert(!pan, "Clone works for a tree of any size")
@@ -289,6 +286,9 @@ func c01step(op int) {
 		}
 		pan = vPanics(func() { c.Add(v) })
 		vAssert(!pan, "the clone is usable (comparator carried over)")
+		if !pan {
+			c01inv(&c, rev, "clone after Add")
+		}
 		var after []int
 		c01in(t.root, &after)
 		c01eq(after, pre, "operations on the clone leave the original unchanged")
@@ -306,6 +306,20 @@ func c01step(op int) {
 		vAssert(!t.Contains(v), "Clear: nothing is found")
 		t.Add(v)
 		vAssert(t.Len() == 1 && t.Contains(v), "Clear: the tree is usable afterwards")
+		w, x := vInt("w"), vInt("x")
+		pan := vPanics(func() {
+			t.Add(w)
+			t.Add(x)
+			t.Remove(v)
+		})
+		vAssert(!pan, "Clear: the cleared tree keeps working for any number of values (comparator intact)")
+		if !pan {
+			vAssert(t.Len() == 2 && t.Contains(w) && t.Contains(x), "Clear: values added after Clear are found")
+			c := t.Clone()
+			vAssert(c.Len() == 2, "Clear: a clone taken after Clear has the same contents")
+			pan = vPanics(func() { c.Add(v); c.Add(w) })
+			vAssert(!pan, "Clear: a clone taken after Clear is usable")
+		}
 	}
 }
 
@@ -350,7 +364,7 @@ func VHAvlHist() {
 	if size >= 3 {
 		vCover("history ends with >= 3 values")
 	}
-	if vParam("SET") == 1 {
+	{
 		// Clone of a tree that has a history (stale internal fields included) is independent
 		var before []int
 		c01in(t.root, &before)
@@ -373,8 +387,10 @@ func VHAvlHist() {
 			}
 		}
 		c.Add(vInt("cv"))
+		c01inv(&c, rev, "history: clone after Add")
 		if len(before) > 0 {
 			c.Remove(before[0])
+			c01inv(&c, rev, "history: clone after Remove")
 		}
 		var after []int
 		c01in(t.root, &after)
